@@ -19,13 +19,13 @@ use std::sync::atomic::{AtomicU64, AtomicU8, Ordering};
 pub struct C16;
 
 // ---------------------------------------------------------------------------
-// Frozen tolerances (calibrated on the unchanged tree, see `rule()`).
-//
-// |out - ref| <= K_REF * sqrt(N) * ||c||_2 + ABS_FLOOR, where N = samples in the varblock and
-// c = the effective coefficient block (after the LLF corner has been derived from the LF
-// samples).  sqrt(N) * ||c||_2 bounds the largest sample the block can produce (up to a factor
-// 2), so the bound is relative to the output scale.  Every operation of the transforms is
-// linear and homogeneous, so no absolute term is needed beyond guarding 0 <= 0.
+// Frozen tolerances.  Calibrated on the unchanged tree (3 thorough runs, seeds 0-2, 1.2 million
+// cases, plus the quick runs of seeds 0-3): every constant is at least 4x the worst ratio observed
+// for the comparison with the model and at least 8x the worst generic-vs-arch ratio (that
+// comparison uses half the tolerance).  The observed maxima and the margins of the current run
+// are written to the evidence file.  c = the effective coefficient block (after the LLF corner
+// has been derived from the LF samples), N = samples in the varblock.  Every operation of the
+// transforms is linear and homogeneous, so no absolute term is needed beyond guarding 0 <= 0.
 
 /// Tolerances per transform family: (family, K2, K1).  A sample may differ from the model by at most
 /// min(K2 * sqrt(N) * |c|_2, K1 * |c|_1) + ABS_FLOOR.  Both products bound the largest sample the
@@ -64,9 +64,10 @@ const K_GRAM: f64 = 1.0e-7;
 
 const Z: AtomicU64 = AtomicU64::new(0);
 const Z3: [AtomicU64; 3] = [Z; 3];
-/// max observed ratio |diff| / (sqrt(N) ||c||) per type: [generic-ref, arch-ref, generic-arch]
+/// max observed |diff| / (sqrt(N) |c|_2) per type: [generic-model, arch-model, generic-arch]
 static MAX_RATIO: [[AtomicU64; 3]; NUM_TYPES] = [Z3; NUM_TYPES];
 static MAX_GRAM: [AtomicU64; NUM_TYPES] = [Z; NUM_TYPES];
+/// the same relative to |c|_1
 static MAX_RATIO1: [[AtomicU64; 3]; NUM_TYPES] = [Z3; NUM_TYPES];
 static BLOCKS: AtomicU64 = AtomicU64::new(0);
 static IMPULSE_POSITIONS: AtomicU64 = AtomicU64::new(0);
